@@ -284,6 +284,9 @@ impl<T: RealNumber + Scalar + AddAssign + SubAssign + MulAssign + DivAssign + Su
     }
 
     fn dot(&self, other: &Self) -> T {
+        if self.nrows() != 1 && self.ncols() != 1 {
+            panic!("A and B should both be either a row or a column vector.");
+        }
         self.dot(other)
     }
 
@@ -465,6 +468,9 @@ impl<T: RealNumber + Scalar + AddAssign + SubAssign + MulAssign + DivAssign + Su
     }
 
     fn max_diff(&self, other: &Self) -> T {
+        if self.shape() != other.shape() {
+            panic!("A and B should have the same shape");
+        }
         let mut max_diff = T::zero();
         for r in 0..self.nrows() {
             for c in 0..self.ncols() {
